@@ -21066,6 +21066,11 @@ impl<
 		// If we have a pending intercept HTLC present but no corresponding event, add that now rather
 		// than relying on the user having persisted the event prior to shutdown.
 		for (id, fwd) in pending_intercepted_htlcs.iter() {
+			// HTLCs held for an often-offline recipient (`hold_htlc`) are not surfaced in an event until
+			// they are released, see `process_pending_update_add_htlcs`.
+			if fwd.forward_info.routing.should_hold_htlc() {
+				continue;
+			}
 			if !pending_events_read.iter().any(
 				|(ev, _)| matches!(ev, Event::HTLCIntercepted { intercept_id, .. } if intercept_id == id),
 			) {
